@@ -70,7 +70,7 @@ class PureEval(object):
         a = fnode.args
         if a.vararg or a.kwarg or a.kwonlyargs or a.posonlyargs:
             raise NotFoldable("helper signature not supported")
-        if fnode.decorator_list:
+        if any(ast.unparse(d) not in ("staticmethod", "classmethod") for d in fnode.decorator_list):
             raise NotFoldable("decorated helper")
         names = [x.arg for x in a.args]
         env = {}
